@@ -396,6 +396,20 @@ theorem tc_cond_branches (Γ : Env) (ln : Ln) (c t e : Expr) (cc ct ce : Comb) (
     tc Γ (.cond ln c t e) = .error ⟨ln, r⟩ := by
   simp [tc, hc, ht, he, hb, hcmp]
 
+/-- the two branches of `if let (En::it = e) t else f` are compared the same way -/
+theorem tc_iflet_branches (Γ : Env) (ln gln : Ln) (en it : String) (e t f : Expr) (ce ct cf : Comb) (r : Rule)
+    (he : tc Γ e = .ok ce) (hen : ce.ct = .val (.enum en)) (hg : guardItemPre Γ gln en it = .ok ())
+    (ht : tc Γ t = .ok ct) (hf : tc Γ f = .ok cf) (hcmp : combCmp ct.ct cf.ct = .error r) :
+    tc Γ (.ifLet ln gln en it e t f) = .error ⟨ln, r⟩ := by
+  simp [tc, he, hen, hg, ht, hf, hcmp]
+
+/-- … and the guard must name the enum of the tested value -/
+theorem tc_iflet_other_enum (Γ : Env) (ln gln : Ln) (en en' it : String) (e t f : Expr) (ce ct cf : Comb)
+    (he : tc Γ e = .ok ce) (hen : ce.ct = .val (.enum en')) (hg : guardItemPre Γ gln en it = .ok ())
+    (ht : tc Γ t = .ok ct) (hf : tc Γ f = .ok cf) (hne : en' ≠ en) :
+    tc Γ (.ifLet ln gln en it e t f) = .error ⟨ln, .matchGuardDiffers⟩ := by
+  simp [tc, he, hen, hg, ht, hf, hne]
+
 /-- two tuple types whose member lists `param_list_cmp` tells apart are not unified -/
 theorem combCmp_tuple (ms1 ms2 : TyList) (h : paramListCmp false ms1 ms2 = false) :
     combCmp (.val (.tuple ms1)) (.val (.tuple ms2)) = .error .condBranches := by
@@ -629,6 +643,26 @@ theorem exhaustiveM_fst (Γ : Env) (en : String) (gs : GuardList) (m : Marks) :
     funext it
     rw [contains_markGuards, contains_unmarkEnum]
     simp
+
+/-! ### a function item needs a name; a main unit needs a function -/
+
+theorem declFuncs_noname (Γ : Env) (f : Func) (fpost : FuncList) (hn : f.name = "") :
+    declFuncs Γ (.cons f fpost) = .error ⟨f.ln, .funcNoName⟩ := by
+  simp [declFuncs, addFunc, hn]
+
+theorem declFuncs_app_noname (Γ Γ1 : Env) (fpre : FuncList) (ss : List Sig) (f : Func) (fpost : FuncList)
+    (hpre : declFuncs Γ fpre = .ok (Γ1, ss)) (hn : f.name = "") :
+    declFuncs Γ (fpre.app (.cons f fpost)) = .error ⟨f.ln, .funcNoName⟩ := by
+  rw [declFuncs_app, hpre]
+  simp [declFuncs_noname Γ1 f fpost hn]
+
+/-- a nameless function item in a block -/
+theorem tc_seq_noname (Γ Γ1 Γ2 : Env) (ln : Ln) (pre post : SeqList) (fpre fpost : FuncList) (ss : List Sig)
+    (f : Func) (hpre : seqEnv Γ.push pre = .ok Γ1) (hf : declFuncs Γ1 fpre = .ok (Γ2, ss)) (hn : f.name = "") :
+    tc Γ (.seq ln (pre.app (.cons (.funcs (fpre.app (.cons f fpost))) post))) = .error ⟨f.ln, .funcNoName⟩ := by
+  have h : tcSeq Γ1 (.cons (.funcs (fpre.app (.cons f fpost))) post) = .error ⟨f.ln, .funcNoName⟩ := by
+    simp [tcSeq, declFuncs_app_noname Γ1 Γ2 fpre ss f fpost hf hn]
+  simp [tc, tcSeq_app_error pre Γ.push Γ1 _ _ hpre h]
 
 /-! ## function-level rules (`tcRest`) -/
 
